@@ -372,4 +372,13 @@ theorem gen_chain_eq_model (steps : List Step) (c : List (List Rat)) (d : Data) 
     simp only [Except.map, bind, Except.bind, pure, Except.pure]
     exact gen_chain_predict_eq_model l q n (hlen rf l ht)
 
+/-- **Bridge (filter).**  `BaseGridder.filter` as regenerated STATEMENT BY STATEMENT from /repo's source text on every run (`self.fit(coordinates,
+    data, weights)`, `self.predict(coordinates)`, `datai - predi` over `zip(data, pred)` — operand order read from the source —, and
+    `return coordinates, residuals, weights`) is the model's gridder step for every `fit`: the coordinates and weights it was given and the
+    data minus the prediction, component by component. -/
+theorem gen_gridder_filter_eq_model (fit : Rows → Except Err Predictor) (c : List (List Rat)) (d : Data) (w : Option Data) :
+    Gen.gridderFilter fit c d w = (gridderStep fit).filter ⟨c, d, w⟩ := by
+  unfold Gen.gridderFilter gridderStep
+  rfl
+
 end Verde.C06
